@@ -3,6 +3,7 @@ package main
 import (
 	"fmt"
 	"go/token"
+	"go/types"
 	"sort"
 	"strings"
 
@@ -361,19 +362,19 @@ func valEq(a, b Val) (eq, ok bool) {
 // failAssumption builds an Assume function stating that result value rv of a
 // checked call denotes failure (non-nil error/alert/failure pointer, or false for ok/bool).
 func failAssumption(rv ssa.Value) func(ssa.Value) (Val, bool) {
-	isBool := false
-	if b, ok := rv.Type().Underlying().(interface{ Kind() interface{} }); ok {
-		_ = b
-	}
-	if bt := rv.Type().Underlying().String(); bt == "bool" {
-		isBool = true
+	fail := vNil(false)
+	if bt, ok := rv.Type().Underlying().(*types.Basic); ok {
+		switch {
+		case bt.Info()&types.IsBoolean != 0:
+			fail = vBool(false)
+		case bt.Info()&types.IsInteger != 0:
+			// crypto/subtle.ConstantTimeCompare and friends: 1 = equal, 0 = different
+			fail = vInt(0)
+		}
 	}
 	return func(v ssa.Value) (Val, bool) {
 		if v == rv {
-			if isBool {
-				return vBool(false), true
-			}
-			return vNil(false), true
+			return fail, true
 		}
 		return unknown, false
 	}
